@@ -1630,7 +1630,15 @@ Qed.
 Lemma pstep_ok kl p o : pstate_ok p -> o <> PAutoSave false ->
   pstate_ok (fst (pstep succ subject manifest cfg_fixed kl p o)).
 Proof.
-  intros (Hr & Hs & Ha) Hne. destruct o as [o| |b|early order k|bad].
+  intros (Hr & Hs & Ha) Hne. destruct o as [o| |b|early order k|bad|order k].
+  6: { cbn [pstep].
+       destruct (gc_cancel succ subject manifest cfg_fixed kl (fun _ => candidates (idx (mem p))) order k (mem p)) as [m r] eqn:E.
+       cbn [fst]. unfold gc_cancel in E.
+       pose proof (gc_refs_ok kl (fun _ => candidates (idx (mem p))) (mem p) ltac:(tauto)) as Hg. unfold gc in Hg.
+       destruct (gc_index _ _ _ _ _ _ (mem p)) as [[ix g]|]; injection E as <- <-.
+       - cbn [fst idx] in Hg. split; [exact Hg|split; [|exact Ha]].
+         rewrite Ha, gc_saves_before_sweep_ok. apply saved_synced. discriminate.
+       - split; [exact Hr|split; [|exact Ha]]. rewrite Ha. apply saved_synced. intros _. exact Hs. }
   5: { cbn [pstep fst]. split; [exact Hr|split; assumption]. }
   - destruct o as [n|n t|t|n| |b|s| |]; cbn [pstep].
     + pose proof (step_refs_ok kl (mem p) (OPush n) Hr) as Hr'. cbn [step] in Hr'.
@@ -1740,7 +1748,13 @@ Lemma pstep_inv kl p o :
   wf (mem (fst (pstep succ subject manifest cfg_fixed kl p o))) /\
   no_stale (mem (fst (pstep succ subject manifest cfg_fixed kl p o))).
 Proof.
-  intros [Hw Hn]. destruct o as [o| |b|early order k|bad].
+  intros [Hw Hn]. destruct o as [o| |b|early order k|bad|order k].
+  6: { cbn [pstep].
+       destruct (gc_cancel_spec kl (fun _ => candidates (idx (mem p))) order k (mem p) ltac:(tauto))
+         as (sc & Ec & Ei & Eg & Hg & Hb & _).
+       rewrite Ec. cbn [fst mem saved]. split.
+       - intros y Hy. apply Hg in Hy. apply Hb. split; [eapply Live_in; eauto|now left].
+       - intros t n H. rewrite Ei in H. exact (gc_no_stale kl _ (mem p) Hn t n H). }
   - pose proof (step_wf kl (mem p) o Hw) as Hw'. pose proof (step_no_stale kl (mem p) o Hn) as Hn'.
     destruct o as [n|n t|t|n| |b|s| |]; cbn [pstep step] in *.
     + destruct (push manifest (mem p) n) as [m r]. cbn [fst mem saved] in *. tauto.
